@@ -23,7 +23,7 @@ RULE = ("fits (and sparse paths) of every batched family and the nonparametric o
 ASSUMPTIONS = ["rows of the generated X are pairwise distinct, so a batch row identifies its sample"]
 EVAL_COUNTER = "epochs"
 REQUIRED = {"quick": {"epochs": 1500, "epochs_multi_batch": 600, "affinity_blocks_checked": 1500, "consumer_steps": 2500,
-                      "decorated_consumer_steps": 200, "dynamic_paths": 6, "batch_size_set_after_construction": 120, "batch_size_set_after_decoration": 15, "fits_step_count_checked": 500, "nonparametric_epochs": 100,
+                      "decorated_consumer_steps": 200, "dynamic_paths": 3, "batch_size_set_after_construction": 120, "batch_size_set_after_decoration": 15, "fits_step_count_checked": 400, "nonparametric_epochs": 100,
                       "path_validation_blocks": 200, "coded_affinity_fits": 25, "tail_batches": 200},
             "thorough": {"epochs": 30000, "consumer_steps": 60000, "path_validation_blocks": 4000}}
 SHARD_TIMEOUT = {"quick": 1200, "thorough": 7000}
